@@ -155,7 +155,37 @@ class BuildState:
             self.run.event(kind, obj)
 
 
+class Flow:
+    """
+    One build directory driven through a sequence of build steps.  File
+    modification times are virtual: every write gets the next tick of the
+    flow's counter, so "newer than" is exactly "written later in the history".
+    """
+    BASE = 1_000_000_000
+
+    def __init__(self):
+        self.clock = 0
+
+    def stamp(self, path):
+        self.clock += 1
+        import os  # pylint: disable=import-outside-toplevel
+        os.utime(path, (self.BASE + self.clock, self.BASE + self.clock))
+
+
+FLOW = None
+
+
+def _stamp(path):
+    if FLOW is not None:
+        FLOW.stamp(path)
+
+
 STATE = None
+
+
+def os_utime_old(path):
+    import os  # pylint: disable=import-outside-toplevel
+    os.utime(path, (Flow.BASE - 1000, Flow.BASE - 1000))
 
 
 def _hash(*parts):
@@ -247,7 +277,9 @@ def _compile(st, args):
     content = _hash(text, *mod_contents)
     for m in defined:
         (moddir / f'{m}.mod').write_text(content)
+        _stamp(moddir / f'{m}.mod')
     target.write_text(content)
+    _stamp(target)
     st.ev('cend', obj)
     return subprocess.CompletedProcess(args, 0, b'', b'')
 
@@ -267,6 +299,7 @@ def _link(st, args):
     st.ev('link', target.name)
     st.linked.append((target.name, members))
     target.write_text(repr(sorted(members)))
+    _stamp(target)
     return subprocess.CompletedProcess(args, 0, b'', b'')
 
 
@@ -285,7 +318,7 @@ class BuildEngine(Engine):
              'subprocess.run -> stub compiler/linker (reads .mod of used modules, writes .mod/.o, content hashes)',
              'networkx.topological_sort in loki.jit_build.lib -> choose-driven valid order', 'clock -> virtual')
     fault_kinds = ('fault_compile_error_fired', 'fault_stall_fired', 'timeout_fired')
-    probes = ('wait_hit_unfinished_task', 'stub_missing_mod', 'topo_choice_points', 'sched_choice_points',
+    probes = ('rebuild_steps', 'wait_hit_unfinished_task', 'stub_missing_mod', 'topo_choice_points', 'sched_choice_points',
               'stale_mod_present', 'header_transitive_dep')
     nontrivial_rule = ('a run is non-trivial if the scheduler had >=2 runnable actors at some step or the '
                        'topological tie-break had >=2 ready nodes; distinct = distinct event-history digest')
@@ -353,7 +386,12 @@ class BuildEngine(Engine):
         fclass = g.weighted('fclass', [('none', 6), ('fail', 2), ('stall', 2)])
         deps = model_deps({'nodes': nodes, 'headers': headers})
         built = sorted(closure(objs, deps))
+        rebuild = None
+        if fclass == 'none' and g.flip('rebuild', 1, 4):
+            rebuild = {'edits': sorted(g.sample('edits', built, g.randint('nedits', 1, min(3, len(built))))),
+                       'reuse': g.pick('reuse', ['lib', 'lib', 'recreate'])}
         scen = {
+            'rebuild': rebuild,
             'nodes': nodes, 'headers': headers, 'objs': objs,
             'workers': g.pick('workers', [1, 2, 2, 3, 4, 4, 8, 16] if big else [1, 2, 2, 3, 4, 8]),
             'shared': g.flip('shared'),
@@ -370,7 +408,8 @@ class BuildEngine(Engine):
         return {'objects': len(scenario['nodes']), 'edges': {str(k): sorted(v) for k, v in deps.items() if v},
                 'objs': scenario['objs'], 'workers': scenario['workers'], 'fail': scenario['fail'],
                 'stall': scenario['stall'], 'headers': len(scenario['headers']),
-                'stale_mods': scenario['stale_mods'], 'nx_random': scenario['nx_random']}
+                'stale_mods': scenario['stale_mods'], 'nx_random': scenario['nx_random'],
+                'rebuild': scenario.get('rebuild')}
 
     # -- shrinking ------------------------------------------------------------
     def shrink(self, scenario, prop):
@@ -391,6 +430,10 @@ class BuildEngine(Engine):
             c['objs'] = [o for o in c['objs'] if o != nid]
             if not c['objs']:
                 continue
+            if c.get('rebuild'):
+                c['rebuild']['edits'] = [e for e in c['rebuild']['edits'] if e != nid]
+                if not c['rebuild']['edits']:
+                    continue
             if c['fail'] == node_name(n) or c['stall'] == node_name(n):
                 continue
             yield c
@@ -422,25 +465,35 @@ class BuildEngine(Engine):
                 c = self.clone(s)
                 c[key] = False
                 yield c
-        for key in ('fail', 'stall'):
-            if s[key]:
+        for key in ('fail', 'stall', 'rebuild'):
+            if s.get(key):
                 c = self.clone(s)
                 c[key] = None
                 yield c
+        if s.get('rebuild'):
+            for i in range(len(s['rebuild']['edits'])):
+                if len(s['rebuild']['edits']) > 1:
+                    c = self.clone(s)
+                    del c['rebuild']['edits'][i]
+                    yield c
         _ = used
 
     # -- execution ------------------------------------------------------------
-    def _materialise(self, scenario, root):
+    def _materialise(self, scenario, root, flow):
         src = root / 'src'
         inc = root / 'inc'
-        src.mkdir()
+        src.mkdir(parents=True)
         inc.mkdir()
         by_id = {n['id']: n for n in scenario['nodes']}
         heads = {h['id']: h for h in scenario['headers']}
         for n in scenario['nodes']:
-            (src / (file_stem(n) + n['ext'])).write_text(render_node(n, by_id, heads))
+            f = src / (file_stem(n) + n['ext'])
+            f.write_text(render_node(n, by_id, heads))
+            flow.stamp(f)
         for h in scenario['headers']:
-            (inc / h['name']).write_text(render_header(h, by_id))
+            f = inc / h['name']
+            f.write_text(render_header(h, by_id))
+            flow.stamp(f)
         return src, inc
 
     def _reset_loki(self):
@@ -448,47 +501,87 @@ class BuildEngine(Engine):
         self.HD.Header._Header__xnew_cached_.cache_clear()
         self.W._initialized = True
 
-    def _one_build(self, scenario, run, sim, root, tag, workers, record):
-        """Run the real Lib.build once.  Returns (state, exception or None)."""
-        global STATE  # pylint: disable=global-statement
+    def _flow(self, scenario, run, root, tag, workers, record):
+        """
+        Drive the real Builder/Lib through the scenario's build steps in its own
+        directory tree.  Returns [(BuildState, exception or None), ...], one per
+        build step.
+        """
+        global STATE, FLOW  # pylint: disable=global-statement
         from loki.jit_build import Builder, Lib, Obj  # pylint: disable=import-outside-toplevel
         self._reset_loki()
-        src, inc = root / 'src', root / 'inc'
-        bdir = root / f'build_{tag}'
+        flow = Flow()
+        FLOW = flow
+        src, inc = self._materialise(scenario, root, flow)
+        bdir = root / 'build'
         bdir.mkdir()
         by_id = {n['id']: n for n in scenario['nodes']}
+        heads = {h['id']: h for h in scenario['headers']}
         if scenario['stale_mods']:
             # left-overs of an earlier build of *older* sources: every .mod exists
             # already, with outdated content; no object files
             for n in scenario['nodes']:
                 if n['kind'] == 'module':
-                    (bdir / f'{node_name(n)}.mod').write_text('stale')
+                    f = bdir / f'{node_name(n)}.mod'
+                    f.write_text('stale')
+                    os_utime_old(f)
             run.probe('stale_mod_present')
-        st = BuildState(run, tag, fail=scenario['fail'], stall=scenario['stall'], record=record)
-        STATE = st
-        err = None
+        libfile = bdir / ('libsim.so' if scenario['shared'] else 'libsim.a')
+        steps = []
+
+        def paths():
+            return [src / (file_stem(by_id[i]) + by_id[i]['ext']) for i in scenario['objs']]
+
+        def one(builder, lib):
+            global STATE  # pylint: disable=global-statement
+            st = BuildState(run, tag, fail=scenario['fail'], stall=scenario['stall'], record=record)
+            STATE = st
+            err = None
+            try:
+                lib.build(builder=builder, logger=self.logger)
+            except (pool.SimDeadlock, pool.SimStepCap) as e:
+                err = e
+            except Exception as e:  # pylint: disable=broad-except
+                err = e
+            finally:
+                STATE = None
+            st.lib = libfile.read_text() if libfile.exists() else None
+            steps.append((st, err))
+            return err
+
         try:
             builder = Builder(source_dirs=src, include_dirs=inc, build_dir=bdir, workers=workers,
                               logger=self.logger)
-            objs = [Obj(source_path=src / (file_stem(by_id[i]) + by_id[i]['ext'])) for i in scenario['objs']]
-            lib = Lib(name='sim', objs=objs, shared=scenario['shared'])
-            lib.build(builder=builder, logger=self.logger)
-        except (pool.SimDeadlock, pool.SimStepCap) as e:
-            err = e
-        except Exception as e:  # pylint: disable=broad-except
-            err = e
+            lib = Lib(name='sim', objs=[Obj(source_path=p) for p in paths()], shared=scenario['shared'])
+            err = one(builder, lib)
+            rb = scenario.get('rebuild')
+            if rb and err is None:
+                if record:
+                    run.probe('rebuild_steps')
+                    run.event('edit', tuple(rb['edits']))
+                for i in rb['edits']:
+                    n = dict(by_id[i], salt=by_id[i].get('salt', 0) + 1)
+                    f = src / (file_stem(n) + n['ext'])
+                    f.write_text(render_node(n, by_id, heads))
+                    flow.stamp(f)
+                    # Obj caches the source text it has read; a user editing a file and
+                    # rebuilding in the same process relies on the documented reset
+                    # only where Loki offers one -- none for the text, so it is not part
+                    # of the oracle (content is judged through the stub's reads)
+                if rb['reuse'] == 'recreate':
+                    builder = Builder(source_dirs=src, include_dirs=inc, build_dir=bdir, workers=workers,
+                                      logger=self.logger)
+                    lib = Lib(name='sim', objs=[Obj(source_path=p) for p in paths()], shared=scenario['shared'])
+                one(builder, lib)
         finally:
+            FLOW = None
             STATE = None
-        libfile = bdir / ('libsim.so' if scenario['shared'] else 'libsim.a')
-        st.lib = libfile.read_text() if libfile.exists() else None
-        _ = sim
-        return st, err
+        return steps
 
     def execute(self, scenario, run):
         root = run.scratch
-        self._materialise(scenario, root)
         patches = Patches()
-        sim = pool.Sim(run, max_steps=5000, dispatch_latencies=LATENCIES, submit_delays=SUBMIT_DELAYS)
+        sim = pool.Sim(run, max_steps=8000, dispatch_latencies=LATENCIES, submit_delays=SUBMIT_DELAYS)
         pool.install(sim)
         try:
             patches.set(self.W, 'ProcessPoolExecutor', pool.SimExecutor)
@@ -499,8 +592,9 @@ class BuildEngine(Engine):
             patches.set(self.LB, 'tqdm', lambda it, *a, **k: it)
             patches.set(self.LB, 'nx', NxProxy(run, enabled=scenario['nx_random']))
             # serial reference: the same real code, one worker, no queue
-            ref, ref_err = self._one_build(scenario, run, sim, root, 'serial', 1, record=False)
-            st, err = self._one_build(scenario, run, sim, root, 'par', scenario['workers'], record=True)
+            ref = self._flow(scenario, run, root / 'serial', 'serial', 1, record=False)
+            t_par0 = sim.now
+            par = self._flow(scenario, run, root / 'par', 'par', scenario['workers'], record=True)
         finally:
             try:
                 sim.shutdown()
@@ -508,17 +602,37 @@ class BuildEngine(Engine):
                 pool.uninstall()
                 patches.undo()
                 self._reset_loki()
-        self._oracle(scenario, run, sim, ref, ref_err, 'serial')
-        self._oracle(scenario, run, sim, st, err, 'par')
-        # same library as a serial build
-        if err is None and ref_err is None and st.lib != ref.lib:
-            run.violate('lib-differs', f'parallel library {st.lib!r} != serial library {ref.lib!r}')
-        if (err is None) != (ref_err is None) and not scenario['stall'] and \
-                not isinstance(err, (pool.SimDeadlock, pool.SimStepCap)):
-            run.violate('outcome-differs', f'serial build: {ref_err!r}; parallel build: {err!r}')
+        if not (scenario['fail'] or scenario['stall']) and scenario['workers'] > 1 and \
+                all(e is None for _, e in par):
+            # bounded liveness: never slower than running everything back to back
+            ntasks = sum(1 for st, _ in par for kind, _o in st.events if kind == 'cstart')
+            bound = sum(st.service_total for st, _ in par) + \
+                (ntasks + len(par)) * (max(LATENCIES) + max(SUBMIT_DELAYS)) + 1.0
+            if sim.now - t_par0 > bound:
+                run.violate('too-slow', f'build took {sim.now - t_par0} virtual s, serial bound {bound}')
+        for k, (st, err) in enumerate(ref):
+            self._oracle(scenario, run, sim, st, err, 'serial', k)
+        for k, (st, err) in enumerate(par):
+            self._oracle(scenario, run, sim, st, err, 'par', k)
+        if len(ref) != len(par):
+            run.violate('outcome-differs', f'serial flow ran {len(ref)} build steps, parallel {len(par)}')
+        for k, ((rst, rerr), (st, err)) in enumerate(zip(ref, par)):
+            # same library as a serial build
+            if err is None and rerr is None and st.lib != rst.lib:
+                run.violate('lib-differs', f'build step {k}: parallel library {st.lib!r} != serial library '
+                                           f'{rst.lib!r}')
+            if (err is None) != (rerr is None) and not scenario['stall'] and \
+                    not isinstance(err, (pool.SimDeadlock, pool.SimStepCap)):
+                run.violate('outcome-differs', f'build step {k}: serial build: {rerr!r}; parallel build: {err!r}')
+            if k > 0 and err is None and rerr is None:
+                cs = sorted({o for kind, o in rst.events if kind == 'cstart'})
+                cp = sorted({o for kind, o in st.events if kind == 'cstart'})
+                if cs != cp:
+                    run.violate('rebuild-set-differs', f'rebuild after editing {scenario["rebuild"]["edits"]}: '
+                                                       f'serial recompiled {cs}, parallel recompiled {cp}')
 
     # -- oracle -----------------------------------------------------------------
-    def _oracle(self, scenario, run, sim, st, err, tag):
+    def _oracle(self, scenario, run, sim, st, err, tag, step=0):
         deps = model_deps(scenario)
         by_id = {n['id']: n for n in scenario['nodes']}
         name = {i: node_name(n) for i, n in by_id.items()}
@@ -543,7 +657,7 @@ class BuildEngine(Engine):
             c = len(starts.get(name[i], []))
             if c > 1:
                 run.violate('compiled-twice', f'[{tag}] {name[i]} compiled {c} times')
-            if c == 0 and err is None:
+            if c == 0 and err is None and step == 0:
                 run.violate('not-compiled', f'[{tag}] {name[i]} never compiled but build reported success')
         for o in starts:
             if o not in {name[i] for i in expected}:
@@ -553,6 +667,8 @@ class BuildEngine(Engine):
             for s_idx in starts.get(name[i], []):
                 for p in deps[i]:
                     pe = ends.get(name[p], [])
+                    if step > 0 and not starts.get(name[p]):
+                        continue    # provider not rebuilt in this step: its .mod is there from before
                     if not pe or min(pe) > s_idx:
                         run.violate('dep-order', f'[{tag}] {name[i]} started compiling at event {s_idx} before '
                                                  f'its provider {name[p]} finished '
@@ -565,7 +681,9 @@ class BuildEngine(Engine):
                                                 f'compile at event {min(fails)} had failed')
         if err is None:
             # (3) link exactly once, after every compile has ended
-            if len(links) != 1:
+            if step > 0 and not links:
+                pass
+            elif len(links) != 1:
                 run.violate('link-count', f'[{tag}] {len(links)} link steps in a successful build')
             else:
                 last_c = max([k for k, (kind, _) in enumerate(ev) if kind in ('cstart', 'cend', 'cfail')],
@@ -574,11 +692,6 @@ class BuildEngine(Engine):
                     run.violate('link-early', f'[{tag}] link at event {links[0]} before compile event {last_c}')
             if any(kind == 'cfail' for kind, _ in ev):
                 run.violate('error-swallowed', f'[{tag}] a compile failed but the build reported success')
-            if not faulty and tag == 'par' and scenario['workers'] > 1:
-                # bounded liveness: never slower than running everything back to back
-                bound = st.service_total + (len(expected) + 1) * (max(LATENCIES) + max(SUBMIT_DELAYS)) + 1.0
-                if sim.now > bound:
-                    run.violate('too-slow', f'build took {sim.now} virtual s, serial bound {bound}')
         else:
             if links:
                 run.violate('linked-after-failure', f'[{tag}] build raised {err!r} but a library was linked')
